@@ -161,7 +161,35 @@ class MemIfcArr(Component):
       s.recv[1 - i].rdy //= s.send[i].rdy
 
 
+class SeqTemps(Component):
+  """temporaries inside update_ff: single, chained and re-used"""
+  def construct(s):
+    s.in_ = InPort(8); s.out = OutPort(8); s.out2 = OutPort(8); s.out3 = OutPort(8)
+    @update_ff
+    def ff_tmp():
+      a = b = s.in_ + 1
+      s.out <<= a + b
+      t = s.in_ ^ 0x0f
+      u = t + a
+      s.out2 <<= u
+      if s.reset: s.out3 <<= 0
+      else:       s.out3 <<= s.out3 + t
+
+
+class CombTemps(Component):
+  def construct(s):
+    s.in_ = InPort(8); s.sel = InPort(); s.out = OutPort(8); s.out2 = OutPort(8)
+    @update
+    def up_tmp():
+      a = b = s.in_ + 1
+      c = a & b
+      if s.sel: c = c + 3
+      s.out @= c
+      s.out2 @= a ^ c
+
+
 DESIGNS = {
+  'x:SeqTemps': SeqTemps, 'x:CombTemps': CombTemps,
   'x:Grid2D': Grid2D, 'x:Grid2DConnect': Grid2DConnect, 'x:PortArray2D': PortArray2D, 'x:PortArray2DConnect': PortArray2DConnect,
   'x:StructArr2D': StructArr2D, 'x:StructArr2DBehav': StructArr2DBehav, 'x:NestedStruct': NestedStruct, 'x:SextSliceHi': SextSliceHi,
   'x:DescLoop': DescLoop, 'x:MemIfcArr': MemIfcArr,
